@@ -11,6 +11,7 @@ use crate::{
     message::{
         rpc::{
             self,
+            error::Severity,
             operation::{self, params::Required},
             Errors, IntoResult, Operation,
         },
@@ -414,8 +415,14 @@ impl ReadXml for Reply {
                     let end = tag.to_end();
                     loop {
                         match reader.read_resolved_event()? {
+                            // junos reports warnings as <rpc-error> elements followed by
+                            // <ok/>, but <ok/> must not mask an error of severity 'error'
                             (ResolveResult::Bound(xmlns::BASE), Event::Empty(tag))
-                                if tag.local_name().as_ref() == b"ok" && this.is_none() =>
+                                if tag.local_name().as_ref() == b"ok"
+                                    && this.is_none()
+                                    && errors
+                                        .iter()
+                                        .all(|err| err.severity() != Severity::Error) =>
                             {
                                 tracing::debug!(?tag);
                                 this = Some(Self::Ok);
